@@ -115,6 +115,7 @@ func runWatchdog(id int, sc *wdScript) wdLine {
 		}
 		return false, 0
 	}
+	wfailed := false
 	mc.OnWrite = func(k int, b []byte) memnet.WriteOutcome {
 		msgs, _ := splitMsgs(b)
 		for _, m := range msgs {
@@ -123,6 +124,11 @@ func runWatchdog(id int, sc *wdScript) wdLine {
 				cea := ceaFor("ok", &m)
 				go mc.Feed(cea)
 			case m.Cmd == 280 && m.Flags&0x80 != 0:
+				if sc.Kind == "wfail_none" && !wfailed {
+					// the transport refuses this DWR: the peer never sees it
+					wfailed = true
+					return memnet.WriteOutcome{N: 0, Err: &memnet.NetErr{Msg: "scripted temporary write error", Temp: true}}
+				}
 				mu.Lock()
 				if _, ok := roundNo[m.HbH]; !ok {
 					roundNo[m.HbH] = len(roundNo) + 1
@@ -185,7 +191,7 @@ func runWatchdog(id int, sc *wdScript) wdLine {
 	_ = t0
 	// observe: until the connection is closed, or the required number of rounds was seen
 	// (plus the time for the last round to be acknowledged)
-	closes := sc.Kind == "stop_after" || sc.Kind == "multi_stop" || sc.Kind == "fail" || sc.Kind == "none" || sc.Kind == "noresult"
+	closes := sc.Kind == "stop_after" || sc.Kind == "multi_stop" || sc.Kind == "fail" || sc.Kind == "none" || sc.Kind == "noresult" || sc.Kind == "wfail_none"
 	limit := time.Duration((sc.Rounds+2)*(sc.WI+(sc.Budget+2)*sc.RI))*time.Millisecond + 3*time.Second
 	deadline := time.Now().Add(limit)
 	for time.Now().Before(deadline) {
